@@ -24,7 +24,7 @@ for pid in ALL:
 na = [{"property_id": p, "reason": NOT_APPLICABLE.get(p, "not claimed yet: model and theorems under construction")} for p in ALL if p not in PROPS]
 m = {
     "version": 1,
-    "setup_cmd": "cd /verif && python3 tools/extract_consts.py && python3 tools/extract_sync.py && python3 tools/extract_twins.py && python3 tools/extract_shapes.py && (cd lean && lake build LzmaVerif lzdriver) && (cd harness && cargo build --release --offline) && (cd harness-mt && cargo build --release --offline) && python3 tools/feat_engine.py build C14 && python3 tools/feat_engine.py build C15",
+    "setup_cmd": "cd /verif && python3 tools/extract_consts.py && python3 tools/extract_sync.py && python3 tools/extract_twins.py && python3 tools/extract_shapes.py && python3 tools/extract_mf.py && (cd lean && lake build LzmaVerif lzdriver) && (cd harness && cargo build --release --offline) && (cd harness-mt && cargo build --release --offline) && python3 tools/feat_engine.py build C14 && python3 tools/feat_engine.py build C15",
     "hooks": {
         "guard": "hasenbanck_lzma_rust2_verif",
         "enable": "RUSTFLAGS=\"--cfg hasenbanck_lzma_rust2_verif\" (set in /verif/harness/.cargo/config.toml; the MT engine /verif/harness-mt additionally sets --cfg hasenbanck_lzma_rust2_verif_shuttle, which swaps std::sync/std::thread for shuttle); both harness crates depend on /repo by path and are rebuilt by every check",
@@ -38,7 +38,7 @@ m = {
         {"name": "harness-feat", "path": "harness-feat", "serves_properties": [p for p in ALL if p in PROPS and PROPS[p].get("engine") == "feat"], "kind_free_text": "transcript program built against /repo with the four feature sets (C14) and with AddressSanitizer + optimization (C15); driven by tools/feat_engine.py"},
         {"name": "lzdriver", "path": "lean/Driver", "serves_properties": [p for p in ALL if p in PROPS], "kind_free_text": "compiled Lean executable running the model's definitions on the same requests (correspondence)"},
         {"name": "lean", "path": "lean/LzmaVerif", "serves_properties": [p for p in ALL if p in PROPS], "kind_free_text": "Lean 4 models, helper lemmas and property theorems; rebuilt and axiom-audited by every check"},
-        {"name": "translators", "path": "tools", "serves_properties": [p for p in ALL if p in PROPS], "kind_free_text": "extract_consts.py (constants/tables), extract_sync.py (synchronisation skeleton of work queue, worker loops and Drop impls) extract_twins.py (constants and statement shapes of the unsafe fast paths) and extract_shapes.py (statement shapes of the encoder's LZ window): regenerate Lean from /repo's source on every run"},
+        {"name": "translators", "path": "tools", "serves_properties": [p for p in ALL if p in PROPS], "kind_free_text": "extract_consts.py (constants/tables), extract_sync.py (synchronisation skeleton of work queue, worker loops and Drop impls) extract_twins.py (constants and statement shapes of the unsafe fast paths) extract_shapes.py (statement shapes of the encoder's LZ window) and extract_mf.py (constants and comparison shapes of the match finders): regenerate Lean from /repo's source on every run"},
     ],
     "checks": checks,
     "not_applicable": na,
